@@ -252,8 +252,9 @@ static void run_and_judge(Solver& eigs, const Counters* counted, vf::Draw& d, vf
     if (counted)
     {
         VF_CHECK(counted->bad_pointers == 0, "operand_pointers", counted->bad_pointers << " operator applications received null or overlapping operand vectors");
-        if (counted->nan_operand_seen)
-            c.cls("nan_operand_seen(not asserted)");
+        // every matrix, shift and start vector drawn here is finite and the harness operators map finite vectors to finite vectors, so a
+        // non-finite operand can only have been manufactured by the library (0/0 normalisation of a vanished direction, ...)
+        VF_CHECK(!counted->nan_operand_seen, "nan_operand", "the user's operator was handed a vector with NaN/Inf entries although every input is finite" << (what.empty() ? "" : " (the run then ended in " + what + ")"));
     }
 }
 
